@@ -1159,3 +1159,17 @@ Proof.
   apply (@imgiter_frames nat nat ex_fmt Z.of_nat 3 true (fun k => (500 + k)%nat) 5%nat 1 2 0 ex_renderer_ok).
   intros k Hk. destruct k as [|[|[|k]]]; try lia; reflexivity.
 Qed.
+
+(** the caching decision of [ImageIterator.__init__]: never for a single pass *)
+Lemma single_pass_not_cached : forall c n, cache_enabled 1 c n = false.
+Proof. reflexivity. Qed.
+
+Lemma cache_enabled_bool : forall r b n, r <> 1 -> cache_enabled r (inl b) n = b.
+Proof.
+  intros r b n Hr. unfold cache_enabled. destruct (r =? 1) eqn:E; [apply Z.eqb_eq in E; contradiction|reflexivity].
+Qed.
+
+Lemma cache_enabled_int : forall r k n, r <> 1 -> cache_enabled r (inr k) n = (Z.of_nat n <=? k).
+Proof.
+  intros r k n Hr. unfold cache_enabled. destruct (r =? 1) eqn:E; [apply Z.eqb_eq in E; contradiction|reflexivity].
+Qed.
